@@ -45,7 +45,9 @@ class SpecC08(e3_driver.Spec):
         if spec['cls'] in ('Union', 'NautilusBound'):
             how = rng.choice(['serial', 'serial', 'restart'] + (
                 ['pool', 'pool'] if spec['cls'] == 'NautilusBound' else []))
-            ops = ops + [['stat', 20000, how]]
+            from simkit import env
+            n = 20000 if env.tier() == 'quick' else 80000
+            ops = ops + [['stat', n, how]]
         return ops
 
     def nontrivial(self, case, r):
